@@ -162,7 +162,9 @@ func cmdC15(seed uint64, tier, outdir string) {
 				query = query[:40000]
 			}
 			a, b := l.VerifInner().NearestMatch(query), direct.NearestMatch(query)
-			if a.Name != b.Name || a.Confidence != b.Confidence {
+			// below the reporting threshold several unrelated licenses can tie at the same tiny confidence and either
+			// may be returned (the candidates are ranked by confidence only): the name is compared from the threshold up
+			if a.Confidence != b.Confidence || (a.Name != b.Name && a.Confidence >= lc.DefaultConfidenceThreshold) {
 				verdict = fmt.Sprintf("NearestMatch differs: archive %s:%v direct %s:%v", a.Name, a.Confidence, b.Name, b.Confidence)
 			}
 			norm := lc.VerifNormalize(query)
